@@ -10,12 +10,16 @@ SIM = "deterministic simulation: whole real app.New instance in a testing/syncte
 CLAIMED = {
  "C01": dict(category="exploration", ref="5 (C01)", technique=SIM + "; oracle O1 (latest delivered notification lists every eligible alert) in clean windows",
    text="Seeded search over routing trees, alert timelines, silences, inhibit rules, time intervals, receiver fault windows (5xx/4xx/hang/reset/slow), valid and rejected reloads and scheduling holds; the oracle asserts, for every alert that the reference models say was eligible for longer than max(group_wait,group_interval)+flush timeout+6s with a healthy integration, that the latest delivered notification for its group lists it as firing. Sampling of a huge space is the honest level; every reported failure is minimised and replayed."),
+ "C02": dict(category="exploration", ref="5 (C02)", technique=SIM + "; crafted replicated versions through Silences.Merge; concurrent Mutes calls parked at yield points; brute-force evaluation of Query() as oracle",
+   text="At every probe Silencer.Mutes (with marker) for every label set of the run is compared with a direct evaluation of all silences Query() returns, after arbitrary histories of API create/edit/expire, merged replicated versions (extend/shorten/expire/revive/stale/duplicate/new/two OR-ed sets), GC, alert GC and snapshot reload; concurrent probes parked inside Mutes must be regular (per silence) with respect to the store states of their interval; notifications never list an alert silenced during the whole flush window."),
  "C04": dict(category="exploration", ref="5 (C04)", technique=SIM + "; per (group, integration) notification sequences over virtual hours to days",
    text="Runs cover 2-30 virtual hours so that several repeat_intervals, nflog GC runs, snapshots, reloads and graceful restarts occur; every notification attempt must be justified against the previous delivered one (new firing alert, new resolved alert with send_resolved, repeat_interval elapsed, or a moment without a firing unsuppressed alert), resolved-only notifications must follow a firing one, and an unchanged healthy group must be re-notified within repeat_interval+group_interval+slack."),
  "C05": dict(category="exploration", ref="5 (C05)", technique=SIM + "; resolves/flaps placed inside in-flight deliveries (slow/hanging receivers, hold before the delete of resolved alerts)",
    text="Checks that a resolution is reported within group_interval+slack when its premises hold, that send_resolved:false never lists resolved alerts, that nothing is listed resolved while it fired during the whole possible flush window (or firing while resolved), that resolved-only first notifications do not occur, and that re-fired alerts are listed again (O1)."),
  "C06": dict(category="exploration", ref="5 (C06)", technique=SIM + "; 2-8 ingestion workers with holds in the group creation loop, maintenance sweep and flush; GET /alerts/groups probes",
    text="Every notification must be one group of one route of the reference router, complete with respect to members eligible during the whole flush window; group keys must be a stable function of (matcher path, group labels); GET /alerts/groups must show the model's partition; new and recreated groups must wait group_wait."),
+ "C12": dict(category="exploration", ref="5 (C12)", technique=SIM + "; lifecycle state machine stepped with the requests actually sent, compared with GET /silences after every call",
+   text="Sequences of create/edit/expire/GC/query over 1-4 silences placed around start, end and end+retention (+-1 ms, +-1 s), with invalid inputs, unknown ids, operator-only matcher edits, oversize replacements and optional count/size limits; ids, times, matchers, comment/creator, state-by-time, once-expired-never-active, presence until end+retention and absence after a GC past it are checked after every call."),
  "C13": dict(category="exploration", ref="5 (C13)", technique=SIM + "; contract model of ingestion (defaulting, overlap merge, visibility) carried as a set of allowed stored versions",
    text="Histories of POST /api/v2/alerts (with/without start/end, overlapping, disjoint, out of order, resolved, re-fired, partly invalid batches) interleaved with provider GC at a per-run interval and GETs; every GET is compared with the set of outcomes the contract allows (three-valued where ranges only touch), plus stability between POSTs: an alert with a future end never vanishes or changes."),
  "C14": dict(category="fault_enumeration", ref="5 (C14)",
